@@ -280,25 +280,29 @@ def hidden_graphs(tier):
     """Grammars outside the detection clause (a nullable *rule* sits in front of the recursive call, so the analysis
     cannot see the cycle) but inside the run-time clause: no grammar and input recurse without bound.  The run-time
     guard for such rules lives in the memo table, which cuts prune: alternatives with cuts come first."""
-    items = ('a', 'n', 't', 'x', '~', 'G')
+    # G: a nested choice whose first option takes a cut; O: a cut inside an optional; l: a marked left-recursive leader
+    items = ('a', 'n', 't', 'x', '~', 'G', 'O', 'l')
     seq1 = [[i] for i in items]
     seq2 = [[i, j] for i in items for j in items]
     seq3 = [[i, j, k] for i in items for j in items for k in items]
-    alt1 = [s for s in seq1 + seq2 if 'G' in s or '~' in s]
+    alt1 = [s for s in seq1 + seq2 if {'G', '~', 'O', 'l'} & set(s)]
     alt2 = [s for s in seq1 + seq2 + (seq3 if tier != 'quick' else [s for s in seq3 if s[2] == 't'])
             if s[0] in ('n', 'a') and 'a' in s]
     alt3 = [None, ['t'], ['x']]
     for a1 in alt1:
         for a2 in alt2:
             for a3 in alt3:
-                yield [a1, a2] + ([a3] if a3 else [])
+                for deco in ('', '@nostak\n'):      # a rule kept off the call stack still needs its guard
+                    yield deco, [a1, a2] + ([a3] if a3 else [])
 
 
-def hidden_text(alts):
+def hidden_text(case):
+    deco, alts = case
+
     def item(it):
-        return {'t': "'t'", 'x': "'x'", 'G': "('x' ~ 't' | 't')"}.get(it, it)
+        return {'t': "'t'", 'x': "'x'", 'G': "('x' ~ 't' | 't')", 'O': "['x' ~ 't']"}.get(it, it)
     body = ' | '.join(' '.join(item(i) for i in alt) for alt in alts)
-    return f"a: {body} ;\n\nn: ['t'] ;\n"
+    return f"{deco}a: {body} ;\n\nn: ['t'] ;\n\nl: l 'p' | 'q' ;\n"
 
 
 def shard_hidden(m, items):
